@@ -10,7 +10,7 @@
     callers, and of both single-object entry points. *)
 From Coq Require Import List ZArith NArith Bool Arith.
 From BBS Require Import Common.Sx Common.ListX Compose.ExistenceCache Compose.Replicators Compose.ReplEntry
-  Compose.EventLog Run.R17Conc Run.R17 Run.R17L Run.R17Proofs Run.R17LogBase.
+  Compose.EventLog Run.R17Conc Run.R17 Run.R17L Run.R17Proofs Run.R17LogBase Run.R17LogOrder.
 Import ListNotations.
 Open Scope Z_scope.
 
@@ -132,3 +132,30 @@ Example entry_log_is_the_recorded_log :
         L [A 3; A 1; A 13; A 0]]
   /\ mon_results kinds lg = [].
 Proof. vm_compute. split; reflexivity. Qed.
+
+(** The order in which two callers write their lines: in the dedup schedule
+    above the leader's lock-protected section wakes the waiter, and the two
+    goroutines then write "caller 0 returns" / "caller 1 returns" in either
+    order.  The model's log has the leader first; the log with the two lines
+    swapped is a [same_run] rewrite of it, and the monitor is silent on it too
+    (an instance of [mon17_silent_on_accepted_any_write_order]). *)
+Example dedup_waiter_writes_its_return_first :
+  let tr := [EStart 0; ETau 0 false; EStart 1; ETau 1 false; ERel 0 0; ERel 0 0; ERel 0 0;
+             ETau 0 false; ETau 0 false; ETau 1 false] in
+  let lg := tlog MDedup (init_state [[0%nat]; [0%nat]] [0%nat] []) tr in
+  let l1 := firstn 8 lg in
+  let a := L [A 3; A 0; A 0; A 0] in
+  let b := L [A 3; A 1; A 0; A 0] in
+  lg = l1 ++ [a; b] /\ same_run lg (l1 ++ [b; a])
+  /\ mon17 (L [A 2; L [A 0]; L [L [A 0]; L [A 0]]; L [A 0]; L []; L []]) (L [L []; A 1; A 1; L [A 0]; L (l1 ++ [b; a])]) = [].
+Proof.
+  cbv zeta.
+  assert (E : tlog MDedup (init_state [[0%nat]; [0%nat]] [0%nat] [])
+                [EStart 0; ETau 0 false; EStart 1; ETau 1 false; ERel 0 0; ERel 0 0; ERel 0 0; ETau 0 false; ETau 0 false; ETau 1 false]
+              = firstn 8 (tlog MDedup (init_state [[0%nat]; [0%nat]] [0%nat] [])
+                [EStart 0; ETau 0 false; EStart 1; ETau 1 false; ERel 0 0; ERel 0 0; ERel 0 0; ETau 0 false; ETau 0 false; ETau 1 false])
+                ++ [L [A 3; A 0; A 0; A 0]; L [A 3; A 1; A 0; A 0]]) by (vm_compute; reflexivity).
+  split; [exact E|]. split.
+  - rewrite E at 1. apply same_run_swap; vm_compute; [discriminate|reflexivity|reflexivity].
+  - vm_compute. reflexivity.
+Qed.
